@@ -202,8 +202,8 @@ fn high_s(sig: &[u8]) -> Option<Vec<u8>> {
     let mut v = hs.to_der().as_bytes().to_vec(); v.push(ty[0]); Some(v)
 }
 
-pub const MUTATIONS: [&str; 30] = ["version", "locktime", "locktime_max", "seq", "prev_index", "prev_missing", "out_amount", "out_script", "out_add",
-    "out_remove", "spent_amount", "spent_script", "key", "sig_r", "sig_s", "sig_type", "sig_type_forkid", "sig_high_s", "sig_pad", "sig_trunc", "sig_empty",
+pub const MUTATIONS: [&str; 31] = ["version", "locktime", "locktime_max", "seq", "prev_index", "prev_missing", "out_amount", "out_script", "out_add",
+    "out_remove", "spent_amount", "spent_script", "key", "sig_r", "sig_s", "sig_type", "sig_type_forkid", "sig_type_bit", "sig_high_s", "sig_pad", "sig_trunc", "sig_empty",
     "ms_swap", "ms_same", "unlock_swap", "dup_input", "p2sh_out", "overspend", "in_add", "sig_len", "key_flip"];
 
 /// one single-field mutation of a signed case; `None` when not applicable
@@ -230,6 +230,8 @@ fn mutate(base: &Case, m: &str, rng: &mut Rng) -> Option<Case> {
         "sig_r" => { let s = sig_slot(&c, i, rng); let p = rng.range(4, 20) as usize; if c.items[i][s].len() < 40 { return None; } c.items[i][s][p] ^= 1 << rng.below(8); }
         "sig_s" => { let s = sig_slot(&c, i, rng); let l = c.items[i][s].len(); if l < 40 { return None; } let p = l - 2 - rng.below(20) as usize; c.items[i][s][p] ^= 1 << rng.below(8); }
         "sig_type" => { let s = sig_slot(&c, i, rng); let l = c.items[i][s].len(); c.items[i][s][l - 1] = *rng.pick(&[0x41u8, 0x42, 0x43, 0xc1, 0xc2, 0xc3, 0x01, 0x03, 0x00, 0x40, 0x5f, 0xff]); }
+        // any single bit of the sighash byte (the digest commits to the whole byte, undefined bits included)
+        "sig_type_bit" => { let s = sig_slot(&c, i, rng); let l = c.items[i][s].len(); c.items[i][s][l - 1] ^= 1 << rng.below(8); }
         "sig_type_forkid" => { let s = sig_slot(&c, i, rng); let l = c.items[i][s].len(); c.items[i][s][l - 1] ^= 0x40; }
         "sig_high_s" => { let s = sig_slot(&c, i, rng); c.items[i][s] = high_s(&c.items[i][s])?; }
         "sig_pad" => { let s = sig_slot(&c, i, rng); let sig = &mut c.items[i][s]; if sig.len() < 40 || sig[1] >= 0x7f { return None; } sig.insert(4, 0); sig[1] += 1; sig[3] += 1; }
@@ -314,6 +316,18 @@ pub fn gen(tier: &str, rng: &mut Rng, out: &mut Vec<String>) {
     for m in MUTATIONS.iter() { let mut got = 0; let mut tries = 0;
         while got < (if thorough { 20 } else { 3 }) && tries < 200 { tries += 1; let b = base_case(rng);
             if let Some(c) = mutate(&b, m, rng) { out.push(c.line()); got += 1; } } }
+    // every bit of the sighash byte of an accepted spend, flipped in turn (input 0)
+    for _ in 0..(if thorough { 40 } else { 6 }) {
+        let mut b = base_case(rng); let mut tries = 0;
+        while !accepted(&b) && tries < 30 { b = base_case(rng); tries += 1; }
+        for bit in 0..8u8 {
+            let mut c = b.clone();
+            let s = sig_slot(&c, 0, rng); let l = c.items[0][s].len(); if l == 0 { continue; }
+            c.items[0][s][l - 1] ^= 1 << bit;
+            c.rebuild();
+            out.push(c.line());
+        }
+    }
     for _ in 0..(if thorough { 20 } else { 2 }) { precheck_cases(rng, out); }
     for _ in 0..(if thorough { 5 } else { 1 }) { timelock_grid(rng, out); }
 }
